@@ -307,7 +307,7 @@ def twin_expired_deleted(res, tier, seed, t_end):
 
 
 def run_C07(res, tier, seed, t_end, bad):
-    matrix_pre(res, 'C07', tier, seed, t_end, [('ttl-rules', Mx.ttl_cases, 400)])
+    matrix_pre(res, 'C07', tier, seed, t_end, [('ttl-rules', Mx.ttl_cases, 1100)])
     if res.findings:
         return
     Cp.run_campaign(res, 'C07', plan_ttl(60), budget(tier, 50, 800), seed, None, (), deadline=t_end)
@@ -693,7 +693,7 @@ def run_C18(res, tier, seed, t_end, bad):
                 return
     res.samples.append({'converter': 'int', 'value': '007', 'impl': Fn.py_conv('int', b'007')})
     # through the commands: INCR overflow, INCRBYFLOAT non-finite, ZADD/ZSCORE
-    matrix_pre(res, 'C18', tier, seed, t_end, [('floats', Mx.floats_cases, 400), ('strings', lambda: [c for c in Mx.strings_cases() if c and c[0][0] in (b'set', b'hset') and len(c) == 3], 300)],
+    matrix_pre(res, 'C18', tier, seed, t_end, [('floats', Mx.floats_cases, 800), ('strings', lambda: [c for c in Mx.strings_cases() if c and c[0][0] in (b'set', b'hset') and len(c) == 3], 300)],
                (mon_nonfinite,))
     if res.findings:
         return
@@ -956,11 +956,11 @@ RUNNERS = {
     'C20': run_C20,
     'C14': run_C14,
     'C01': generic('C01', Cp.plan_single(['str', 'key', 'ttl'], 60, select=0.03), Cp.plan_single(['str', 'key', 'ttl'], 80, select=0.03), 60, 1200,
-                   pre=lambda res, tier, seed, t_end, bad: matrix_pre(res, 'C01', tier, seed, t_end, [('strings', Mx.strings_cases, 700), ('ttl-rules', Mx.ttl_cases, 250)])),
+                   pre=lambda res, tier, seed, t_end, bad: matrix_pre(res, 'C01', tier, seed, t_end, [('strings', Mx.strings_cases, 2200), ('ttl-rules', Mx.ttl_cases, 300)])),
     'C02': generic('C02', Cp.plan_single(['list', 'hash', 'set', 'sort', 'key'], 60), Cp.plan_single(['list', 'hash', 'set', 'sort', 'key'], 80), 60, 1200,
-                   pre=lambda res, tier, seed, t_end, bad: matrix_pre(res, 'C02', tier, seed, t_end, [('lists', Mx.lists_cases, 900), ('sets', Mx.sets_cases, 120)])),
+                   pre=lambda res, tier, seed, t_end, bad: matrix_pre(res, 'C02', tier, seed, t_end, [('lists', Mx.lists_cases, 2200), ('sets', Mx.sets_cases, 120)])),
     'C03': generic('C03', Cp.plan_single(['zset', 'zset', 'set', 'key'], 60), Cp.plan_single(['zset', 'zset', 'set', 'key'], 80), 60, 1200, OBSERVERS['C03'],
-                   pre=lambda res, tier, seed, t_end, bad: matrix_pre(res, 'C03', tier, seed, t_end, [('zsets', Mx.zsets_cases, 900), ('floats', Mx.floats_cases, 250)],
+                   pre=lambda res, tier, seed, t_end, bad: matrix_pre(res, 'C03', tier, seed, t_end, [('zsets', Mx.zsets_cases, 1800), ('floats', Mx.floats_cases, 800)],
                                                                     OBSERVERS['C03'])),
     'C04': run_C04,
     'C05': generic('C05', pre=lambda res, tier, seed, t_end, bad: __import__('scenarios').run(res, 'C05', tier, seed, t_end, ()),
